@@ -4,9 +4,11 @@ import (
 	"fmt"
 	"math/rand"
 	"os"
+	"os/exec"
 	"path/filepath"
 	"reflect"
 	"strings"
+	"time"
 
 	"github.com/Vedant9500/WTF/internal/database"
 	"github.com/Vedant9500/WTF/internal/zzverif/vlib"
@@ -340,6 +342,106 @@ func engineNotebook(ctx *Ctx) {
 			ctx.R.Sample(map[string]interface{}{"history": tail(trace, 6), "entries": len(model)})
 		}
 		ctx.R.Path("start-"+start, 1)
+		os.RemoveAll(base)
+	}
+}
+
+func init() { engines["notebook-faults"] = engineNotebookFaults }
+
+// engineNotebookFaults: saves while the existing notebook cannot be read (permission faults need an unprivileged
+// process, so the binary runs under setpriv as uid 65534). Whatever save reports, every earlier entry must still
+// be there afterwards; a save that reports success must have added the new entry to them.
+func engineNotebookFaults(ctx *Ctx) {
+	sp, err := exec.LookPath("setpriv")
+	if err != nil {
+		ctx.R.Extra["setpriv_missing"] = 1
+		return
+	}
+	r := vlib.NewRand(ctx.Seed, ctx.Shard, "notebook-faults")
+	n := ctx.N(96, 960)
+	os.Chmod(ctx.Scratch, 0o755)
+	for i := 0; i < n; i++ {
+		base := filepath.Join(ctx.Scratch, fmt.Sprintf("nf%d", i))
+		h := NewHome(base)
+		pre := vlib.StripCaches(vlib.GenCommands(r, vlib.DBSpec{N: 2 + r.Intn(6), Pipelines: true}))
+		seen := map[string]bool{}
+		u := pre[:0]
+		for _, c := range pre {
+			if !seen[c.Command] {
+				seen[c.Command] = true
+				u = append(u, c)
+			}
+		}
+		pre = u
+		os.MkdirAll(filepath.Dir(h.Personal()), 0o755)
+		vlib.WriteYAML(h.Personal(), pre)
+		fault := []string{"unreadable-0200", "unreadable-0000", "readable-control", "readonly-dir"}[i%4]
+		switch fault {
+		case "unreadable-0200":
+			os.Chmod(h.Personal(), 0o200)
+		case "unreadable-0000":
+			os.Chmod(h.Personal(), 0)
+		}
+		filepath.Walk(base, func(p string, _ os.FileInfo, _ error) error { os.Chown(p, 65534, 65534); return nil })
+		os.Chmod(base, 0o755)
+		if fault == "readonly-dir" {
+			os.Chmod(filepath.Dir(h.Personal()), 0o555)
+		}
+		args := []string{"save", "--", fmt.Sprintf("echo new-%d", i), "a new entry"}
+		if i%3 == 0 {
+			args = []string{"save-pipeline", "--", "p", fmt.Sprintf("cat x | sort -%d", i)}
+		}
+		cs := map[string]interface{}{"fault": fault, "earlier_entries": len(pre), "args_quoted": fmt.Sprintf("%q", args)}
+		ctx.R.Begin(cs)
+		ctx.R.Eval(1)
+		argv := append([]string{sp, "--reuid", "65534", "--regid", "65534", "--clear-groups", ctx.Wtf}, args...)
+		res := h.RunCmd(60*time.Second, nil, argv...)
+		os.Chmod(filepath.Dir(h.Personal()), 0o755)
+		os.Chmod(h.Personal(), 0o644)
+		if bad, why := res.Crashed(); bad {
+			ctx.R.Violate(vlib.Violation{Property: "C08", Clause: "save-crashes", Path: "wtf " + args[0] + "/" + fault, Detail: why, Witness: map[string]interface{}{"case": cs, "stderr": vlib.Trunc(res.Stderr, 800)}})
+			os.RemoveAll(base)
+			continue
+		}
+		success := strings.Contains(res.Stdout, "saved successfully")
+		ctx.R.Path("fault-"+fault, 1)
+		if success {
+			ctx.R.Path("fault-save-reported-success", 1)
+		} else {
+			ctx.R.Path("fault-save-reported-failure", 1)
+		}
+		ctx.R.Nontriv(i, fault)
+		var nb *database.Database
+		var lerr error
+		ctx.R.Guard("C08", "LoadDatabase(notebook)", cs, func() { nb, lerr = database.LoadDatabase(h.Personal()) })
+		if lerr != nil || nb == nil {
+			ctx.R.Violate(vlib.Violation{Property: "C08", Clause: "notebook-unloadable-after-save", Path: "wtf " + args[0] + "/" + fault,
+				Detail: fmt.Sprintf("after a save on a notebook that could not be read (%s) the notebook no longer loads: %v", fault, lerr), Witness: cs})
+			os.RemoveAll(base)
+			continue
+		}
+		// every earlier entry still there, unchanged, in its original position
+		lost := ""
+		for k, c := range pre {
+			if k >= len(nb.Commands) || nb.Commands[k].Command != c.Command || nb.Commands[k].Description != c.Description {
+				lost = fmt.Sprintf("entry %d (%s) of %d earlier entries is missing or changed; notebook now holds %d entries", k, vlib.Q(vlib.Trunc(c.Command, 60)), len(pre), len(nb.Commands))
+				break
+			}
+		}
+		if lost != "" {
+			ctx.R.Violate(vlib.Violation{Property: "C08", Clause: "neighbour-lost-or-added", Path: "wtf " + args[0] + "/" + fault,
+				Detail:  fmt.Sprintf("save (reported success: %v) on a notebook that could not be read: %s", success, lost),
+				Witness: map[string]interface{}{"case": cs, "stdout": vlib.Trunc(res.Stdout, 400)}})
+		} else if success && len(nb.Commands) != len(pre)+1 {
+			ctx.R.Violate(vlib.Violation{Property: "C08", Clause: "saved-entry-not-faithful", Path: "wtf " + args[0] + "/" + fault,
+				Detail: fmt.Sprintf("save reported success but the notebook holds %d entries, expected %d", len(nb.Commands), len(pre)+1), Witness: cs})
+		} else if !success && len(nb.Commands) != len(pre) {
+			ctx.R.Violate(vlib.Violation{Property: "C08", Clause: "failed-save-changed-notebook", Path: "wtf " + args[0] + "/" + fault,
+				Detail: fmt.Sprintf("save reported failure but the notebook holds %d entries instead of %d", len(nb.Commands), len(pre)), Witness: cs})
+		}
+		if i < 2 {
+			ctx.R.Sample(map[string]interface{}{"case": cs, "reported_success": success, "entries_after": len(nb.Commands)})
+		}
 		os.RemoveAll(base)
 	}
 }
